@@ -1475,19 +1475,21 @@ pub fn e2() -> BoxedStrategy<Value> {
 /// a collection whose scan unlinks them (every unlink is a deferral: every 64th fills A's bag,
 /// seals it and may re-pin A); A is parked right after each seal (or after a generated number of
 /// unlinks), B runs collection rounds (advancing the epoch, freeing expired bags) in between.
+/// With the prologue, B first leaves two sealed bags in the queue and lets them age, so that A's
+/// collection pops one of them (and B the next one) in the middle of all this.
 pub fn e3() -> BoxedStrategy<Value> {
     (
         0u8..20,
-        0u8..70,
-        (64u8..74, 64u8..74, 64u8..74, 64u8..74),
+        prop_oneof![1 => 0u8..70, 1 => Just(63u8)],
+        (64u8..74, 64u8..74, 64u8..74, 64u8..74, 64u8..74),
         (0u32..8, 0u32..8, 0u32..8),
         (1u8..3, 1u8..3, 1u8..4),
-        (any::<bool>(), 0u8..4),
+        (3usize..6, 0u8..4, any::<bool>(), 0u8..5),
     )
-        .prop_map(|(align, pre, (n1, n2, n3, n4), (j1, j2, j3), (r1, r2, r3), (four, by_unlinks))| {
+        .prop_map(|(align, pre, (n1, n2, n3, n4, n5), (j1, j2, j3), (r1, r2, r3), (nstages, by_unlinks, prologue, r0))| {
             let d = |k: EK, a: u8, b: u8| EOp { k, a, b };
             let (a_t, b_t, h_t) = (0u8, 1u8, 2u8);
-            let stages: Vec<u8> = if four { vec![n1, n2, n3, n4] } else { vec![n1, n2, n3] };
+            let stages: Vec<u8> = [n1, n2, n3, n4, n5][..nstages].to_vec();
             let total: usize = stages.iter().map(|x| *x as usize).sum();
             let mut h = vec![d(EK::RegExtra, (total.min(255)) as u8, (total - total.min(255)) as u8)];
             let mut a = vec![d(EK::Pin, 0, 0)];
@@ -1502,10 +1504,22 @@ pub fn e3() -> BoxedStrategy<Value> {
             // everybody registers first (so that the extra participants are nearest to the head)
             b.push(d(EK::Round, 0, 0));
             sched.push(Directive { thread: b_t, until: Until::OpIndex(1) });
-            sched.push(Directive { thread: a_t, until: Until::OpIndex(a_ready) });
             sched.push(Directive { thread: h_t, until: Until::OpIndex(1) });
-            let jit = [j1, j2, j3, j1];
-            let rounds = [r1, r2, r3, r3];
+            if prologue {
+                b.push(d(EK::Pin, 0, 0));
+                b.push(d(EK::Defer, 0, 1));
+                b.push(d(EK::Flush, 0, 0));
+                b.push(d(EK::Defer, 0, 2));
+                b.push(d(EK::Flush, 0, 0));
+                b.push(d(EK::DropGuard, 0, 0));
+                for _ in 0..r0 {
+                    b.push(d(EK::Round, 0, 0));
+                }
+                sched.push(Directive { thread: b_t, until: Until::OpIndex(b.len() as u32) });
+            }
+            sched.push(Directive { thread: a_t, until: Until::OpIndex(a_ready) });
+            let jit = [j1, j2, j3, j1, j2];
+            let rounds = [r1, r2, r3, r3, r3];
             for (i, n) in stages.iter().enumerate() {
                 h.push(d(EK::UnregExtra, *n, 0));
                 sched.push(Directive { thread: h_t, until: Until::OpIndex(h.len() as u32) });
